@@ -42,10 +42,8 @@ Verdict(q) ==
     ELSE IF q.exc \in {"rpa", "bogus"} /\ ~q.homog THEN Rej("energy", "NotImplementedError")
     \* forces on an excited active state are analytical and need a homogeneous batch
     ELSE IF q.exc = "cis" /\ ~q.homog /\ q.active > 0 THEN Rej("energy", "NotImplementedError")
-    \* as coded (late, see KnownLate): from the first MD step on the previous amplitudes are handed back as
-    \* starting guess; the heterogeneous-batch CIS solver refuses them (NotImplementedError) - after the
-    \* t = 0 results were produced
-    ELSE IF q.com # "nomd" /\ q.exc = "cis" /\ ~q.homog THEN Rej("md_step", "NotImplementedError")
+    \* (BOMD on the ground-state surface with CIS energies on a heterogeneous batch is accepted: the heterogeneous-batch solver
+    \* builds its own starting guess at every step; before the repair it refused the previous amplitudes at the first MD step)
     ELSE Accept
 
 \* the preconditions the property lists as documented
@@ -55,7 +53,7 @@ DocViolated(q) ==
     \/ (q.uhf /\ ~q.mult_ok)
     \/ (q.uhf /\ (q.sp2 \/ q.conv = 2 \/ q.exc # "none"))
     \/ (q.exc = "rpa" /\ ~q.homog)
-    \/ (q.exc = "cis" /\ ~q.homog /\ (q.active > 0 \/ q.com # "nomd"))
+    \/ (q.exc = "cis" /\ ~q.homog /\ q.active > 0)
     \/ (q.active > 0 /\ q.exc = "none")
     \/ q.com \in BadComModes
 
@@ -63,7 +61,7 @@ B2N(b) == IF b THEN 1 ELSE 0
 \* number of violated preconditions / limitations of a request
 Faults(q) == B2N(q.sorted # "ok") + B2N(~q.uhf /\ q.odd) + B2N(q.uhf /\ ~q.mult_ok) + B2N(q.uhf /\ q.sp2) + B2N(q.uhf /\ q.conv = 2)
              + B2N(q.uhf /\ q.exc # "none") + B2N(q.exc # "none" /\ ~q.nstates) + B2N(q.exc = "bogus") + B2N(q.exc = "rpa" /\ ~q.homog)
-             + B2N(q.exc = "cis" /\ ~q.homog /\ (q.active > 0 \/ q.com # "nomd")) + B2N(q.active > 0 /\ q.exc = "none") + B2N(q.com \in BadComModes)
+             + B2N(q.exc = "cis" /\ ~q.homog /\ q.active > 0) + B2N(q.active > 0 /\ q.exc = "none") + B2N(q.com \in BadComModes)
 
 Init == r \in Requests
 Next == UNCHANGED r
@@ -72,8 +70,8 @@ Spec == Init /\ [][Next]_r
 \* (a) every documented precondition, violated, is rejected
 DocumentedRejected == DocViolated(r) => Verdict(r).verdict = "reject"
 \* ... before any result is produced: every rejecting stage precedes publication on the molecule
-\* (rows in KnownLate are rejected only at the first MD step: recorded in known_findings.json)
-KnownLate(q) == q.com # "nomd" /\ q.exc = "cis" /\ ~q.homog
+\* (no late rejection is tolerated; the one that existed - BOMD + CIS on a heterogeneous batch - was repaired)
+KnownLate(q) == FALSE
 EarlyEnough == (Verdict(r).verdict = "reject" /\ ~KnownLate(r)) => StageNo(Verdict(r).stage) < StageNo("accept")
 \* rejections only for a reason: an accepted-by-the-documentation request is rejected only for an
 \* implemented-but-undocumented limitation (listed here so that a new one shows up as a diff)
